@@ -16,6 +16,7 @@ CHUNK = 2
 CASE_TIMEOUT = 600
 SELFTEST = {'quick': 4, 'thorough': 64}
 TOL = 1e-11
+REQUIRED_PROBES = ['iota_nonzero', 'iota_zero', 'start_flux_surface', 'start_v_parallel', 'start_poloidal']
 RULE = ('case = (grid sizes in [5..9]^4 with nz >= 7, amplified constants [small R0, iota zero or not, '
         'eps 1e-3..1e-1, random m, n, dt], starting layout, seeded smooth+noise perturbation of f and a '
         'seeded real O(1) potential, the serial process grid (1,1) plus 2-3 further admissible grids '
